@@ -43,6 +43,9 @@ theories/Infer/FitsEngine.vos theories/Infer/FitsEngine.vok theories/Infer/FitsE
 theories/Infer/Inv.vo theories/Infer/Inv.glob theories/Infer/Inv.v.beautified theories/Infer/Inv.required_vo: theories/Infer/Inv.v theories/Base/Hier.vo theories/Base/Ty.vo theories/Infer/Store.vo theories/Infer/Engine.vo theories/Infer/Run.vo
 theories/Infer/Inv.vio: theories/Infer/Inv.v theories/Base/Hier.vio theories/Base/Ty.vio theories/Infer/Store.vio theories/Infer/Engine.vio theories/Infer/Run.vio
 theories/Infer/Inv.vos theories/Infer/Inv.vok theories/Infer/Inv.required_vos: theories/Infer/Inv.v theories/Base/Hier.vos theories/Base/Ty.vos theories/Infer/Store.vos theories/Infer/Engine.vos theories/Infer/Run.vos
+theories/Infer/Frame.vo theories/Infer/Frame.glob theories/Infer/Frame.v.beautified theories/Infer/Frame.required_vo: theories/Infer/Frame.v theories/Base/Hier.vo theories/Base/Ty.vo theories/Infer/Store.vo theories/Infer/Engine.vo theories/Infer/Run.vo theories/Infer/Inv.vo
+theories/Infer/Frame.vio: theories/Infer/Frame.v theories/Base/Hier.vio theories/Base/Ty.vio theories/Infer/Store.vio theories/Infer/Engine.vio theories/Infer/Run.vio theories/Infer/Inv.vio
+theories/Infer/Frame.vos theories/Infer/Frame.vok theories/Infer/Frame.required_vos: theories/Infer/Frame.v theories/Base/Hier.vos theories/Base/Ty.vos theories/Infer/Store.vos theories/Infer/Engine.vos theories/Infer/Run.vos theories/Infer/Inv.vos
 theories/Graph/Closure.vo theories/Graph/Closure.glob theories/Graph/Closure.v.beautified theories/Graph/Closure.required_vo: theories/Graph/Closure.v 
 theories/Graph/Closure.vio: theories/Graph/Closure.v 
 theories/Graph/Closure.vos theories/Graph/Closure.vok theories/Graph/Closure.required_vos: theories/Graph/Closure.v 
@@ -55,6 +58,45 @@ theories/Bag/Bag.vos theories/Bag/Bag.vok theories/Bag/Bag.required_vos: theorie
 theories/Bag/BagTy.vo theories/Bag/BagTy.glob theories/Bag/BagTy.v.beautified theories/Bag/BagTy.required_vo: theories/Bag/BagTy.v theories/Base/Hier.vo theories/Base/Ty.vo theories/Sub/Match.vo theories/Sub/SubSpec.vo theories/Sub/SubProofs.vo theories/Bag/Union.vo theories/Bag/Bag.vo
 theories/Bag/BagTy.vio: theories/Bag/BagTy.v theories/Base/Hier.vio theories/Base/Ty.vio theories/Sub/Match.vio theories/Sub/SubSpec.vio theories/Sub/SubProofs.vio theories/Bag/Union.vio theories/Bag/Bag.vio
 theories/Bag/BagTy.vos theories/Bag/BagTy.vok theories/Bag/BagTy.required_vos: theories/Bag/BagTy.v theories/Base/Hier.vos theories/Base/Ty.vos theories/Sub/Match.vos theories/Sub/SubSpec.vos theories/Sub/SubProofs.vos theories/Bag/Union.vos theories/Bag/Bag.vos
+theories/Parse/Lang.vo theories/Parse/Lang.glob theories/Parse/Lang.v.beautified theories/Parse/Lang.required_vo: theories/Parse/Lang.v theories/Base/Hier.vo theories/Base/Ty.vo
+theories/Parse/Lang.vio: theories/Parse/Lang.v theories/Base/Hier.vio theories/Base/Ty.vio
+theories/Parse/Lang.vos theories/Parse/Lang.vok theories/Parse/Lang.required_vos: theories/Parse/Lang.v theories/Base/Hier.vos theories/Base/Ty.vos
+theories/Parse/Tok.vo theories/Parse/Tok.glob theories/Parse/Tok.v.beautified theories/Parse/Tok.required_vo: theories/Parse/Tok.v theories/Parse/Lang.vo
+theories/Parse/Tok.vio: theories/Parse/Tok.v theories/Parse/Lang.vio
+theories/Parse/Tok.vos theories/Parse/Tok.vok theories/Parse/Tok.required_vos: theories/Parse/Tok.v theories/Parse/Lang.vos
+theories/Parse/TypeText.vo theories/Parse/TypeText.glob theories/Parse/TypeText.v.beautified theories/Parse/TypeText.required_vo: theories/Parse/TypeText.v theories/Base/Hier.vo theories/Base/Ty.vo theories/Parse/Lang.vo theories/Parse/Tok.vo
+theories/Parse/TypeText.vio: theories/Parse/TypeText.v theories/Base/Hier.vio theories/Base/Ty.vio theories/Parse/Lang.vio theories/Parse/Tok.vio
+theories/Parse/TypeText.vos theories/Parse/TypeText.vok theories/Parse/TypeText.required_vos: theories/Parse/TypeText.v theories/Base/Hier.vos theories/Base/Ty.vos theories/Parse/Lang.vos theories/Parse/Tok.vos
+theories/Parse/TypeTextProofs.vo theories/Parse/TypeTextProofs.glob theories/Parse/TypeTextProofs.v.beautified theories/Parse/TypeTextProofs.required_vo: theories/Parse/TypeTextProofs.v theories/Base/Hier.vo theories/Base/Ty.vo theories/Parse/Lang.vo theories/Parse/Tok.vo theories/Parse/TypeText.vo
+theories/Parse/TypeTextProofs.vio: theories/Parse/TypeTextProofs.v theories/Base/Hier.vio theories/Base/Ty.vio theories/Parse/Lang.vio theories/Parse/Tok.vio theories/Parse/TypeText.vio
+theories/Parse/TypeTextProofs.vos theories/Parse/TypeTextProofs.vok theories/Parse/TypeTextProofs.required_vos: theories/Parse/TypeTextProofs.v theories/Base/Hier.vos theories/Base/Ty.vos theories/Parse/Lang.vos theories/Parse/Tok.vos theories/Parse/TypeText.vos
+theories/Uri/Uri.vo theories/Uri/Uri.glob theories/Uri/Uri.v.beautified theories/Uri/Uri.required_vo: theories/Uri/Uri.v theories/Base/Hier.vo theories/Base/Ty.vo theories/Parse/Lang.vo theories/Parse/TypeText.vo
+theories/Uri/Uri.vio: theories/Uri/Uri.v theories/Base/Hier.vio theories/Base/Ty.vio theories/Parse/Lang.vio theories/Parse/TypeText.vio
+theories/Uri/Uri.vos theories/Uri/Uri.vok theories/Uri/Uri.required_vos: theories/Uri/Uri.v theories/Base/Hier.vos theories/Base/Ty.vos theories/Parse/Lang.vos theories/Parse/TypeText.vos
+theories/Uri/UriProofs.vo theories/Uri/UriProofs.glob theories/Uri/UriProofs.v.beautified theories/Uri/UriProofs.required_vo: theories/Uri/UriProofs.v theories/Base/Hier.vo theories/Base/Ty.vo theories/Parse/Lang.vo theories/Parse/TypeText.vo theories/Uri/Uri.vo
+theories/Uri/UriProofs.vio: theories/Uri/UriProofs.v theories/Base/Hier.vio theories/Base/Ty.vio theories/Parse/Lang.vio theories/Parse/TypeText.vio theories/Uri/Uri.vio
+theories/Uri/UriProofs.vos theories/Uri/UriProofs.vok theories/Uri/UriProofs.required_vos: theories/Uri/UriProofs.v theories/Base/Hier.vos theories/Base/Ty.vos theories/Parse/Lang.vos theories/Parse/TypeText.vos theories/Uri/Uri.vos
+theories/Parse/ExTok.vo theories/Parse/ExTok.glob theories/Parse/ExTok.v.beautified theories/Parse/ExTok.required_vo: theories/Parse/ExTok.v 
+theories/Parse/ExTok.vio: theories/Parse/ExTok.v 
+theories/Parse/ExTok.vos theories/Parse/ExTok.vok theories/Parse/ExTok.required_vos: theories/Parse/ExTok.v 
+theories/Parse/ExParser.vo theories/Parse/ExParser.glob theories/Parse/ExParser.v.beautified theories/Parse/ExParser.required_vo: theories/Parse/ExParser.v theories/Parse/ExTok.vo
+theories/Parse/ExParser.vio: theories/Parse/ExParser.v theories/Parse/ExTok.vio
+theories/Parse/ExParser.vos theories/Parse/ExParser.vok theories/Parse/ExParser.required_vos: theories/Parse/ExParser.v theories/Parse/ExTok.vos
+theories/Parse/ExTotal.vo theories/Parse/ExTotal.glob theories/Parse/ExTotal.v.beautified theories/Parse/ExTotal.required_vo: theories/Parse/ExTotal.v theories/Parse/ExTok.vo theories/Parse/ExParser.vo
+theories/Parse/ExTotal.vio: theories/Parse/ExTotal.v theories/Parse/ExTok.vio theories/Parse/ExParser.vio
+theories/Parse/ExTotal.vos theories/Parse/ExTotal.vok theories/Parse/ExTotal.required_vos: theories/Parse/ExTotal.v theories/Parse/ExTok.vos theories/Parse/ExParser.vos
+theories/Parse/ExSpec.vo theories/Parse/ExSpec.glob theories/Parse/ExSpec.v.beautified theories/Parse/ExSpec.required_vo: theories/Parse/ExSpec.v theories/Parse/ExTok.vo theories/Parse/ExParser.vo
+theories/Parse/ExSpec.vio: theories/Parse/ExSpec.v theories/Parse/ExTok.vio theories/Parse/ExParser.vio
+theories/Parse/ExSpec.vos theories/Parse/ExSpec.vok theories/Parse/ExSpec.required_vos: theories/Parse/ExSpec.v theories/Parse/ExTok.vos theories/Parse/ExParser.vos
+theories/Parse/ExRender.vo theories/Parse/ExRender.glob theories/Parse/ExRender.v.beautified theories/Parse/ExRender.required_vo: theories/Parse/ExRender.v theories/Parse/ExTok.vo theories/Parse/ExParser.vo theories/Parse/ExTotal.vo theories/Parse/ExSpec.vo
+theories/Parse/ExRender.vio: theories/Parse/ExRender.v theories/Parse/ExTok.vio theories/Parse/ExParser.vio theories/Parse/ExTotal.vio theories/Parse/ExSpec.vio
+theories/Parse/ExRender.vos theories/Parse/ExRender.vok theories/Parse/ExRender.required_vos: theories/Parse/ExRender.v theories/Parse/ExTok.vos theories/Parse/ExParser.vos theories/Parse/ExTotal.vos theories/Parse/ExSpec.vos
+theories/Parse/ExFacts.vo theories/Parse/ExFacts.glob theories/Parse/ExFacts.v.beautified theories/Parse/ExFacts.required_vo: theories/Parse/ExFacts.v theories/Parse/ExTok.vo theories/Parse/ExParser.vo theories/Parse/ExTotal.vo theories/Parse/ExSpec.vo theories/Parse/ExRender.vo
+theories/Parse/ExFacts.vio: theories/Parse/ExFacts.v theories/Parse/ExTok.vio theories/Parse/ExParser.vio theories/Parse/ExTotal.vio theories/Parse/ExSpec.vio theories/Parse/ExRender.vio
+theories/Parse/ExFacts.vos theories/Parse/ExFacts.vok theories/Parse/ExFacts.required_vos: theories/Parse/ExFacts.v theories/Parse/ExTok.vos theories/Parse/ExParser.vos theories/Parse/ExTotal.vos theories/Parse/ExSpec.vos theories/Parse/ExRender.vos
+theories/Parse/ExMatch.vo theories/Parse/ExMatch.glob theories/Parse/ExMatch.v.beautified theories/Parse/ExMatch.required_vo: theories/Parse/ExMatch.v theories/Base/Hier.vo theories/Base/Ty.vo theories/Sub/Match.vo theories/Sub/SubSpec.vo theories/Sub/SubProofs.vo
+theories/Parse/ExMatch.vio: theories/Parse/ExMatch.v theories/Base/Hier.vio theories/Base/Ty.vio theories/Sub/Match.vio theories/Sub/SubSpec.vio theories/Sub/SubProofs.vio
+theories/Parse/ExMatch.vos theories/Parse/ExMatch.vok theories/Parse/ExMatch.required_vos: theories/Parse/ExMatch.v theories/Base/Hier.vos theories/Base/Ty.vos theories/Sub/Match.vos theories/Sub/SubSpec.vos theories/Sub/SubProofs.vos
 props/C01.vo props/C01.glob props/C01.v.beautified props/C01.required_vo: props/C01.v theories/Base/Hier.vo theories/Base/Ty.vo theories/Sub/Match.vo theories/Sub/SubSpec.vo theories/Sub/SubProofs.vo
 props/C01.vio: props/C01.v theories/Base/Hier.vio theories/Base/Ty.vio theories/Sub/Match.vio theories/Sub/SubSpec.vio theories/Sub/SubProofs.vio
 props/C01.vos props/C01.vok props/C01.required_vos: props/C01.v theories/Base/Hier.vos theories/Base/Ty.vos theories/Sub/Match.vos theories/Sub/SubSpec.vos theories/Sub/SubProofs.vos
@@ -88,3 +130,15 @@ props/C04.vos props/C04.vok props/C04.required_vos: props/C04.v theories/Base/Hi
 props/C20.vo props/C20.glob props/C20.v.beautified props/C20.required_vo: props/C20.v theories/Base/Hier.vo theories/Base/Ty.vo theories/Sub/Match.vo theories/Sub/SubSpec.vo theories/Sub/SubProofs.vo theories/Bag/Union.vo theories/Bag/Bag.vo theories/Bag/BagTy.vo
 props/C20.vio: props/C20.v theories/Base/Hier.vio theories/Base/Ty.vio theories/Sub/Match.vio theories/Sub/SubSpec.vio theories/Sub/SubProofs.vio theories/Bag/Union.vio theories/Bag/Bag.vio theories/Bag/BagTy.vio
 props/C20.vos props/C20.vok props/C20.required_vos: props/C20.v theories/Base/Hier.vos theories/Base/Ty.vos theories/Sub/Match.vos theories/Sub/SubSpec.vos theories/Sub/SubProofs.vos theories/Bag/Union.vos theories/Bag/Bag.vos theories/Bag/BagTy.vos
+props/C14.vo props/C14.glob props/C14.v.beautified props/C14.required_vo: props/C14.v theories/Base/Hier.vo theories/Base/Ty.vo theories/Parse/Lang.vo theories/Parse/Tok.vo theories/Parse/TypeText.vo theories/Parse/TypeTextProofs.vo theories/Uri/Uri.vo theories/Uri/UriProofs.vo
+props/C14.vio: props/C14.v theories/Base/Hier.vio theories/Base/Ty.vio theories/Parse/Lang.vio theories/Parse/Tok.vio theories/Parse/TypeText.vio theories/Parse/TypeTextProofs.vio theories/Uri/Uri.vio theories/Uri/UriProofs.vio
+props/C14.vos props/C14.vok props/C14.required_vos: props/C14.v theories/Base/Hier.vos theories/Base/Ty.vos theories/Parse/Lang.vos theories/Parse/Tok.vos theories/Parse/TypeText.vos theories/Parse/TypeTextProofs.vos theories/Uri/Uri.vos theories/Uri/UriProofs.vos
+props/C13.vo props/C13.glob props/C13.v.beautified props/C13.required_vo: props/C13.v theories/Base/Hier.vo theories/Base/Ty.vo theories/Sub/Match.vo theories/Parse/ExTok.vo theories/Parse/ExParser.vo theories/Parse/ExSpec.vo theories/Parse/ExRender.vo theories/Parse/ExFacts.vo theories/Parse/ExMatch.vo
+props/C13.vio: props/C13.v theories/Base/Hier.vio theories/Base/Ty.vio theories/Sub/Match.vio theories/Parse/ExTok.vio theories/Parse/ExParser.vio theories/Parse/ExSpec.vio theories/Parse/ExRender.vio theories/Parse/ExFacts.vio theories/Parse/ExMatch.vio
+props/C13.vos props/C13.vok props/C13.required_vos: props/C13.v theories/Base/Hier.vos theories/Base/Ty.vos theories/Sub/Match.vos theories/Parse/ExTok.vos theories/Parse/ExParser.vos theories/Parse/ExSpec.vos theories/Parse/ExRender.vos theories/Parse/ExFacts.vos theories/Parse/ExMatch.vos
+props/C17_parser.vo props/C17_parser.glob props/C17_parser.v.beautified props/C17_parser.required_vo: props/C17_parser.v theories/Parse/ExTok.vo theories/Parse/ExParser.vo theories/Parse/ExTotal.vo
+props/C17_parser.vio: props/C17_parser.v theories/Parse/ExTok.vio theories/Parse/ExParser.vio theories/Parse/ExTotal.vio
+props/C17_parser.vos props/C17_parser.vok props/C17_parser.required_vos: props/C17_parser.v theories/Parse/ExTok.vos theories/Parse/ExParser.vos theories/Parse/ExTotal.vos
+props/C16.vo props/C16.glob props/C16.v.beautified props/C16.required_vo: props/C16.v theories/Base/Hier.vo theories/Base/Ty.vo theories/Infer/Store.vo theories/Infer/Engine.vo theories/Infer/Run.vo theories/Infer/Inv.vo theories/Infer/Frame.vo
+props/C16.vio: props/C16.v theories/Base/Hier.vio theories/Base/Ty.vio theories/Infer/Store.vio theories/Infer/Engine.vio theories/Infer/Run.vio theories/Infer/Inv.vio theories/Infer/Frame.vio
+props/C16.vos props/C16.vok props/C16.required_vos: props/C16.v theories/Base/Hier.vos theories/Base/Ty.vos theories/Infer/Store.vos theories/Infer/Engine.vos theories/Infer/Run.vos theories/Infer/Inv.vos theories/Infer/Frame.vos
